@@ -177,9 +177,10 @@ def run_case(case):
 
     stored = on_fresh_thread(plan, name='ref')
     good = dict(stored)
-    if any(v == '' for v in stored.values()):
-        # a formula result that is the empty text cannot be stored in a file the reader
-        # gives back ('' is read as "no stored result"): no consistent file to start from
+    if any(stored.get(a) in ('', None) for a in dag.formulas()):
+        # a formula result that is the empty text or an empty reference cannot be stored in a
+        # file the reader gives back (both are read as "no stored result"): there is no
+        # consistent file to start from
         counts['probe:run-skipped-empty-text-result-cannot-be-stored'] = 1
         return {'violation': None, 'digest': 'skipped', 'sig': 'skipped', 'nontrivial': False,
                 'counts': counts, 'sample': None}
